@@ -128,7 +128,7 @@ def worker(ctx):
             if mode == "refuse-args":
                 must_refuse("pyO", ["py", "-O"], "language-without-optimization-mode")
                 names = [m.name for m in messages_of(root)]
-                must_refuse("F-noO", [rng.choice(["c", "go", "py"]), "-F", ",".join(names[:2]) or "X"], "-F-without--O")
+                must_refuse("F-noO", [rng.choice(["c", "go", "py"]), "-F", rng.choice([",".join(names[:2]) or "X", "", ",", " "])], "-F-without--O")
                 od, rc, se = run("pyF", ["py", "-O", "-F", names[0] if names else "X"])
                 if rc == 0 or os.listdir(od):
                     res.violation("not-refused:py -O -F", f"py -O -F accepted: exit {rc}", wit)
@@ -188,7 +188,9 @@ def worker(ctx):
             # ---- filter --------------------------------------------------------------------------
             simple = [m.name for m in msgs]
             choice = rng.random()
-            if choice < 0.15:
+            if choice < 0.07:
+                chosen = [rng.choice(["", " ", "NoSuchMessage"])]  # an empty -F value names no message
+            elif choice < 0.15:
                 chosen = ["NoSuchMessage"]
             elif choice < 0.3 and simple:
                 chosen = [rng.choice(simple), "NoSuchMessage"]
